@@ -9,7 +9,7 @@ cd $WT || exit 2
 git checkout -- . ; find . -name 'zz_demo*_test.go' -delete
 git apply --check $OUT/mutant$N.diff || { echo "RESULT $ID/$N apply-failed"; exit 1; }
 PKGS=$(grep '^+++ b/' $OUT/mutant$N.diff | sed 's|^+++ b/||' | xargs -n1 dirname | sort -u | sed 's|^|./|' | tr '\n' ' ')
-DEMOPKG=$(head -1 $OUT/demo${N}_test.go | grep -o 'pkg/[a-z/]*\|tools/[a-z/]*' | head -1 | sed 's|/$||')
+DEMOPKG=$(head -1 $OUT/demo${N}_test.go | grep -o 'pkg/[a-z/]*\|tools/[a-z/]*' | head -1 | sed 's|/zz$||; s|/$||')
 [ -z "$DEMOPKG" ] && DEMOPKG=$(echo $PKGS | awk '{print $1}' | sed 's|^\./||')
 TAGS=""; grep -q '^//go:build verif' $OUT/demo${N}_test.go && TAGS="-tags verif"
 RUNRE=$(grep -o "^func Test[A-Za-z0-9_]*" $OUT/demo${N}_test.go | sed 's/func //' | tr '\n' '|' | sed 's/|$//')
